@@ -90,3 +90,34 @@ Example C01_accepted_call :
       [None; Some 1%nat; Some 3%nat]
   = repeat [Some (0%nat, ([2%nat], [(2%Z, 1%Z); (30%Z, 1%Z)]))] 3.
 Proof. vm_compute. reflexivity. Qed.
+
+(* INSTANCE GAP CLOSED: the model is executed at QN (exact rationals) by the correspondence check and
+   the theorems above are stated at RN.  The whole autojac model commutes with every map that
+   preserves 0, 1, + and * (it uses no other numeric operation), in particular with Q2R: the value
+   computed by vm_compute at QN, mapped to R, IS the value the theorems speak about. *)
+From TJ.proofs Require Import TransferProofs.
+Theorem C01_model_is_a_ring_homomorphism_invariant :
+  forall (T U : Type) (NT : Num T) (NU : Num U) (phi : T -> U),
+  phi (n0 NT) = n0 NU -> phi (n1 NT) = n1 NU ->
+  (forall a b, phi (nadd NT a b) = nadd NU (phi a) (phi b)) ->
+  (forall a b, phi (nmul NT a b) = nmul NU (phi a) (phi b)) ->
+  forall P A A', agg_hom phi A A' -> forall tensors ord k retain s,
+  backward_model NU (mprog phi P) A' tensors ord k retain (mstore phi s)
+  = (mres phi (fst (backward_model NT P A tensors ord k retain s)),
+     mstore phi (snd (backward_model NT P A tensors ord k retain s))).
+Proof. exact @backward_hom. Qed.
+Print Assumptions C01_model_is_a_ring_homomorphism_invariant.
+Theorem C01_executed_model_is_the_real_model : forall (P : prog Q) A A', agg_hom Q2R A A' ->
+  forall tensors ord k retain s,
+  backward_model RN (mprog Q2R P) A' tensors ord k retain (mstore Q2R s)
+  = (mres Q2R (fst (backward_model QN P A tensors ord k retain s)),
+     mstore Q2R (snd (backward_model QN P A tensors ord k retain s))).
+Proof. exact backward_Q_to_R. Qed.
+Print Assumptions C01_executed_model_is_the_real_model.
+(* the aggregators used by the correspondence are related across the two instances *)
+Theorem C01_constant_sum_mean_transfer :
+  (forall w, agg_hom Q2R (agg_constant QN w) (agg_constant RN (map Q2R w))) /\
+  agg_hom Q2R (fun J => Ok (agg_sum QN J)) (fun J => Ok (agg_sum RN J)) /\
+  agg_hom Q2R (fun J => Ok (agg_mean QN J)) (fun J => Ok (agg_mean RN J)).
+Proof. exact (conj agg_constant_Q_to_R (conj agg_sum_Q_to_R agg_mean_Q_to_R)). Qed.
+Print Assumptions C01_constant_sum_mean_transfer.
